@@ -236,14 +236,24 @@ TLAPS_STDLIB = "/opt/veriftools/tlapm/lib/tlapm/stdlib"
 TLAPS_MODULES = ("TLAPS.tla", "SequenceTheorems.tla", "FunctionTheorems.tla", "NaturalsInduction.tla", "WellFoundedInduction.tla", "FiniteSetTheorems.tla")
 
 
-def prove_mutex():
-    """TLAPS: mutual exclusion is an invariant of ContainerConc for every instance (ContainerConcProofs.tla)"""
+def prove_mutex(tier="quick"):
+    """TLAPS: mutual exclusion, ConstructedOnce and EvaluatedOnce are invariants of ContainerConc for every instance
+    (ContainerConcProofs.tla). A full proof takes about five minutes; the quick tier starts from tlapm's own fingerprint file
+    (spec/ContainerConcProofs.fp: results keyed by the content of each obligation, so any obligation the current modules change
+    is proved again), the thorough tier proves everything afresh."""
     import re
     import tempfile
     d = tempfile.mkdtemp(prefix="tlaps-", dir=core.scratch())
     for f in ("ContainerConc.tla", "ContainerConcProofs.tla"):
         shutil.copy(os.path.join(core.SPEC, f), d)
-    p = core.sh(["tlapm", "--threads", str(core.NCPU), "ContainerConcProofs.tla"], cwd=d, check=False, timeout=1800, env=dict(os.environ))
+    cmd = ["tlapm", "--threads", str(core.NCPU)]
+    fp = os.path.join(core.SPEC, "ContainerConcProofs.fp")
+    if tier == "quick" and os.path.exists(fp):
+        shutil.copy(fp, os.path.join(d, "start.fp"))
+        cmd += ["--usefp", "start.fp"]
+    else:
+        cmd += ["--cleanfp"]
+    p = core.sh(cmd + ["ContainerConcProofs.tla"], cwd=d, check=False, timeout=3000, env=dict(os.environ))
     m = re.search(r"All (\d+) obligations? proved", p.stdout)
     if not m:
         raise core.InfraError("TLAPS could not discharge the proof of mutual exclusion:\n" + p.stdout[-2000:])
@@ -255,7 +265,7 @@ def run_c20(tier):
     t0 = time.time()
     rng = random.Random(core.seed())
     v = core.Verdict(pid)
-    obligations = prove_mutex()
+    obligations = prove_mutex(tier)
     # ---- R1 (the instances are also checked against the proof's inductive invariant and its assumption on the constants)
     tlc = {}
     states = gen = 0
@@ -443,8 +453,9 @@ def run_c20(tier):
         "exhaustive": False, "tlc_instances": tlc,
         "tlaps": {"module": "ContainerConcProofs.tla", "theorem": "for every instance (any goroutines, services, parameters, dependency relation, scripts): "
                   "Inv (typing; a frame inside a critical section belongs to the goroutine the lock table names; no goroutine holds one entry "
-                  "twice) and OnceInv (built[s] tied to the position of the one frame inside the critical section of a shared s) are inductive; "
-                  "Spec => []MutualExclusion and Spec => []ConstructedOnce",
+                  "twice), OnceInv (built[s] tied to the position of the one frame inside the critical section of a shared s) and EvalInv "
+                  "(the same for evals[p] of a parameter) are inductive; Spec => []MutualExclusion, Spec => []ConstructedOnce and "
+                  "Spec => []EvaluatedOnce",
                   "obligations": obligations, "discharged": obligations, "instances_checked_against_Inv_by_TLC": bool(stdlib)}, "fine_grained_binding": {k: x for k, x in fine.items() if k != "sample"}, "operations_returned": n_ops, "trace_events": len(lines),
         "known_findings_hit": {k: n for k, (f, n) in v.known_hit.items()},
     }, time.time() - t0, violations=len(v.violations), assumptions=[
